@@ -24,6 +24,31 @@ def _loop_parts(fn):
     kind = "slice" if "slice" in nt.get("callee_full", "") else "range"
     if kind == "range":
         _check_index_loop(fn, body, nb, nt)
+    else:
+        # the slice iterated is the message itself, all of it: `for b in data` / `data.iter()` - not `&data[..n]`, not a
+        # clamped or re-sliced view (bytes left out never enter the remainder)
+        from .mir import strip_refs, tstr
+        from .dataflow import var_def_terms
+        it = strip_refs(fn.term_of_operand(nt["args"][0], nb))
+        defs = var_def_terms(fn, it[1]) if it[0] == "var" else [it]
+        ok = False
+        for d in defs:
+            d = strip_refs(d)
+            for _k in range(6):
+                if d[0] == "call" and d[1] and d[1].split("::")[-1] in ("into_iter", "iter", "copied", "cloned") and d[2]:
+                    d = strip_refs(d[2][0])
+                elif d[0] == "place" and all(e == "*" for e in d[2]):
+                    d = strip_refs(d[1])
+                elif d[0] == "var":
+                    dd = var_def_terms(fn, d[1])
+                    if len(dd) != 1:
+                        break
+                    d = strip_refs(dd[0])
+                else:
+                    break
+            ok = ok or d[:2] == ("arg", 1)
+        if not ok or len(defs) != 1:
+            raise KeyError("the loop of %s does not run over the whole message argument (iterator: %s)" % (fn.npath, [tstr(x)[:80] for x in defs]))
     return h, body, nb, nt, sw, kind
 
 
